@@ -165,6 +165,9 @@ func runMain(args []string) error {
 			w.Write(o)
 		}
 	}
+	if ents, err := os.ReadDir("/proc/self/fd"); err == nil {
+		fmt.Fprintln(os.Stderr, "open descriptors at the end:", len(ents))
+	}
 	return nil
 }
 
